@@ -43,10 +43,19 @@ ssize_t read_data(zckCtx *zck, char *data, size_t length) {
         set_error(zck, "Unable to read to NULL data pointer");
         return -1;
     }
-    ssize_t read_bytes = read(zck->fd, data, length);
-    if(read_bytes == -1) {
-        set_error(zck, "Error reading data: %s", strerror(errno));
-        return -1;
+    /* A read may return fewer bytes than asked for without being at the end of
+     * the file; callers take a short count for the end of the file, so only
+     * return one when it is */
+    size_t read_bytes = 0;
+    while(read_bytes < length) {
+        ssize_t rb = read(zck->fd, data + read_bytes, length - read_bytes);
+        if(rb == -1) {
+            set_error(zck, "Error reading data: %s", strerror(errno));
+            return -1;
+        }
+        if(rb == 0)
+            break;
+        read_bytes += rb;
     }
     return read_bytes;
 }
